@@ -17,6 +17,7 @@ import equinox as eqx
 import jax
 import numpy as np
 from jax import numpy as jnp
+from jax import random as jr
 
 from lerax.policy import MLPActorCriticPolicy, MLPQPolicy, MLPSACPolicy
 from lerax.space import Box, Discrete, MultiBinary, MultiDiscrete
@@ -407,7 +408,53 @@ def _sac_policy(ctx):
                 ctx.disagree("sac action_and_log_prob log-density", case, impl=impl["sample_logps"], model=m_slp)
 
 
+def _policy_sample_law(ctx):
+    """'With a key the policy samples from the same distribution whose log-probability it reports', on the
+    JOINT law: empirical frequencies of the real policy's keyed actions over every joint action of a small
+    MultiDiscrete / MultiBinary / Discrete space against exp(evaluate_action log-prob) of that action
+    (components of equal size with shared noise would keep every marginal right and break the joint)."""
+    rng = ctx.rng
+    N = 4096
+    spaces = [("MultiDiscrete((3, 3))", MultiDiscrete((3, 3)), [3, 3]), ("MultiDiscrete((2, 4, 2))", MultiDiscrete((2, 4, 2)), [2, 4, 2]),
+              ("MultiBinary(3)", MultiBinary(3), [2, 2, 2]), ("Discrete(5)", Discrete(5), [5])]
+    if not ctx.quick:
+        spaces += [("MultiDiscrete((4, 4))", MultiDiscrete((4, 4)), [4, 4]), ("MultiDiscrete((2, 3))", MultiDiscrete((2, 3)), [2, 3])]
+    for name, space, dims in spaces:
+        policy = _construct(ctx, MLPActorCriticPolicy, name, space, key=jr.key(int(rng.integers(2**31))))
+        if policy is None:
+            continue
+        obs = jnp.asarray(rng.uniform(-1, 1, OBS_DIM), dtype=float)
+        joint = np.array(list(itertools.product(*[range(d) for d in dims])))
+        scalar = isinstance(space, Discrete)
+
+        def enc(a):
+            return jnp.asarray(a[0]) if scalar else jnp.asarray(a).astype(bool if isinstance(space, MultiBinary) else int)
+
+        logp = np.array([float(policy.evaluate_action(None, obs, enc(a))[2]) for a in joint], np.float64)
+        p = np.exp(logp)
+        worst, detail = 0.0, None
+        for attempt in range(2):
+            keys = jr.split(jr.key(int(rng.integers(2**31))), N)
+            acts = np.asarray(eqx.filter_jit(jax.vmap(lambda k: policy(None, obs, key=k)[1]))(keys)).astype(np.int64).reshape(N, -1)
+            counts = np.array([int((acts == a[None, :]).all(axis=1).sum()) for a in joint], np.float64)
+            z = np.abs(counts - N * p) / np.sqrt(N * p * (1 - p) + 1.0)
+            worst = float(z.max())
+            detail = {"joint_action": joint[int(z.argmax())].tolist(), "observed_frequency": float(counts[int(z.argmax())] / N),
+                      "reported_probability": float(p[int(z.argmax())])}
+            if worst <= 5.5:
+                break
+        case = {"kind": "policy-sample-law", "action_space": name, "keys": N, "reported_mass": float(p.sum()),
+                "worst_z": worst, **(detail or {})}
+        ctx.case(case, True)
+        ctx.count("policy-sample-law:" + name)
+        if abs(p.sum() - 1.0) > 1e-3:
+            ctx.phi_fail("reported_logprob_is_logprob_of_action", case, key="ac:reported-law-mass")
+        elif worst > 5.5:
+            ctx.phi_fail("keyed_samples_follow_the_reported_law", case, key="ac:joint-sample-law")
+
+
 def run(ctx):
+    _policy_sample_law(ctx)
     _actor_critic(ctx)
     _q_policy(ctx)
     _sac_policy(ctx)
